@@ -72,6 +72,8 @@ def dot(a, b):
         return [sum(a[k] * b[k][j] for k in range(sa[0])) for j in range(sb[1])]
     if len(sa) == 2 and len(sb) == 2 and sa[1] == sb[0]:
         return [[sum(a[i][k] * b[k][j] for k in range(sa[1])) for j in range(sb[1])] for i in range(sa[0])]
+    if len(sa) >= 3 and len(sb) in (1, 2):
+        return [dot(x, b) for x in a]  # np.dot contracts the last axis of a: the leading axes are carried
     raise AnalysisError(f"dot of shapes {sa}, {sb}")
 
 
@@ -408,6 +410,46 @@ class Evaluator:
                 a = self.ev(e.func.value)
                 if len(shape(a)) == 1:
                     return [[x] for x in a]
+            if (isinstance(e.func, ast.Attribute) and e.func.attr == "reshape" and e.args) or (f == "np.reshape" and len(e.args) == 2):
+                a = self.ev(e.func.value) if f != "np.reshape" else self.ev(e.args[0])
+                dims_ = e.args if f != "np.reshape" else [e.args[1]]
+                if len(dims_) == 1 and isinstance(dims_[0], (ast.Tuple, ast.List)):
+                    dims_ = dims_[0].elts
+                want = []
+                for d_ in dims_:
+                    v_ = self.ev(d_)
+                    if isinstance(v_, list) or not getattr(v_, "is_Integer", False):
+                        raise AnalysisError(f"{self.where}: reshape extent '{core.src(d_)}'")
+                    want.append(int(v_))
+                flat = []
+
+                def fl_(x):
+                    if isinstance(x, list):
+                        for y in x:
+                            fl_(y)
+                    else:
+                        flat.append(x)
+
+                fl_(a)
+                known = 1
+                for w_ in want:
+                    if w_ != -1:
+                        known *= w_
+                if want.count(-1) > 1 or known == 0 or len(flat) % known:
+                    raise AnalysisError(f"{self.where}: reshape of {len(flat)} entries to {want}")
+                want = [w_ if w_ != -1 else len(flat) // known for w_ in want]
+
+                def build_(items, dims):
+                    if len(dims) == 1:
+                        return list(items)
+                    step = len(items) // dims[0]
+                    return [build_(items[i * step:(i + 1) * step], dims[1:]) for i in range(dims[0])]
+
+                return build_(flat, want)
+            if f == "len" and len(e.args) == 1:
+                a = self.ev(e.args[0])
+                if isinstance(a, list):
+                    return sp.Integer(len(a))
             raise AnalysisError(f"{self.where}: call '{core.norm(core.src(e), 60)}' has no array meaning here")
         raise AnalysisError(f"{self.where}: expression '{core.norm(core.src(e), 60)}'")
 
